@@ -149,14 +149,37 @@ def run(tier, binary, d, stress=0, seed=1):
         # free-running: the real sender against a credit-granting goroutine with real parallelism; every round's
         # final observation is judged by the monitor (credit conserved, chunks add up)
         trc = os.path.join(d, "fs_stress.ndjson")
-        p = subprocess.run([binary, "-test.run", "TestFlowSenderStress", "-test.timeout", "0"],
-                           env=dict(os.environ, VERIF_FS_STRESS=str(stress), VERIF_SEED=str(seed), VERIF_TRACES=trc, GOTRACEBACK="all"),
-                           stdout=subprocess.PIPE, stderr=subprocess.STDOUT, text=True, timeout=900)
+        # several stress processes side by side (each has three busy goroutines)
+        nproc = 4
+        procs = []
+        for k in range(nproc):
+            procs.append(subprocess.Popen([binary, "-test.run", "TestFlowSenderStress", "-test.timeout", "0"],
+                                          env=dict(os.environ, VERIF_FS_STRESS=str(stress), VERIF_SEED=str(seed), VERIF_TRACES=trc + ".%d" % k,
+                                                   VERIF_FS_BASE=str(k * 1000000), GOTRACEBACK="all"),
+                                          stdout=subprocess.PIPE, stderr=subprocess.STDOUT, text=True))
+        failed = None
+        with open(trc, "w") as ftrc:
+            for k, pr in enumerate(procs):
+                try:
+                    out, _ = pr.communicate(timeout=900)
+                except subprocess.TimeoutExpired:
+                    pr.kill()
+                    out, _ = pr.communicate()
+                    out += "\nSTUCK (outer time-out)"
+                if pr.returncode != 0 and failed is None:
+                    failed = out
+                if os.path.exists(trc + ".%d" % k):
+                    ftrc.write(open(trc + ".%d" % k).read())
+
+        class P:
+            pass
+        p = P()
+        p.returncode, p.stdout = (1, failed) if failed is not None else (0, "")
         if p.returncode != 0:
             m = re.search(r"^(panic: .*|fatal error: .*)$", p.stdout, re.M)
             viols.append({"formula": "HANG" if (m and "deadlock" in m.group(1)) or "STUCK" in p.stdout else "CRASH", "detail": (m.group(1) if m else "sender stress failed: " + p.stdout[-200:]),
                           "scenario": {"name": "FlowSender stress"}, "crash": {"output": p.stdout[-3000:]}, "trace_file": None, "trace": None, "line": 0, "k": None})
-        elif os.path.exists(trc):
+        if os.path.exists(trc) and os.path.getsize(trc) > 0:
             with open(trc, "a") as f:
                 f.write('{"ev":"end"}\n')
             outm = trc + ".mon.json"
